@@ -556,8 +556,8 @@ static void mode_wt(uint64_t seed, long cases) {
 
 // ---------------------------------------------------------------------------------------- Re-Pair (C20)
 static std::vector<int> gen_repair_input(Rng &r, std::string *shape) {
-  int k = (int)r.below(9);
-  static const char *names[] = {"no_repeated_pair", "single_string", "run", "abab", "fibonacci", "copies", "near_identical", "random_small_alphabet", "random_text"};
+  int k = (int)r.below(10);
+  static const char *names[] = {"no_repeated_pair", "single_string", "run", "abab", "fibonacci", "copies", "near_identical", "random_small_alphabet", "random_text", "many_short_small_alphabet"};
   *shape = names[k];
   std::vector<std::string> strs;
   size_t budget = g_big ? 200000 : 4000;
@@ -572,6 +572,9 @@ static std::vector<int> gen_repair_input(Rng &r, std::string *shape) {
   case 6: { std::string base = rs("abcdefghijklmnopqrstuvwxyz", 30, 80); size_t n = 2 + r.below(80); for (size_t i = 0; i < n; i++) { std::string s = base; s[r.below(s.size())] = (char)('a' + r.below(26)); strs.push_back(s); } break; }
   case 7: { size_t n = 1 + r.below(200); for (size_t i = 0; i < n; i++) strs.push_back(rs("ab", 1, 30)); break; }
   case 8: { size_t n = 1 + r.below(200); std::string alpha; for (int c = 1; c < 255; c++) alpha += (char)c; for (size_t i = 0; i < n; i++) strs.push_back(rs(alpha, 1, 40)); break; }
+  case 9: { // thousands of short strings over 3-4 letters: hundreds of distinct pairs share one frequency (the pair arrays grow and shrink)
+    size_t n = 1200 + r.below(g_big ? 20000 : 2500); std::string alpha = r.chance(50) ? "abc" : "abcd";
+    for (size_t i = 0; i < n; i++) strs.push_back(rs(alpha, 3, 9)); break; }
   }
   std::vector<int> seq;
   for (auto &s : strs) { for (unsigned char c : s) seq.push_back((int)c); seq.push_back(0); }
